@@ -152,6 +152,19 @@ def oracle(prop, run):
                 key = (tk["graph"].split("@")[0], tk["name"])
                 for e in evs:
                     e["terminal"] = desc_terminal.get(key, e["terminal"])
+        released_idx = {}
+        for k, e in enumerate(mon):
+            if e["ev"] == "release":
+                released_idx.setdefault(e["t"], k)
+        start_idx = {}
+        for k, e in enumerate(mon):
+            if e["ev"] == "start":
+                start_idx.setdefault(e["t"], k)
+        for t, k in start_idx.items():
+            # "tasks start only after release": Task.release() must have been called on the task before Task.start()
+            if released_idx.get(t, len(mon)) > k:
+                yield ("C02 started-without-having-been-released", {"task": t, "start": mon[k]})
+                break
         for t, evs in starts.items():
             if len(evs) > 1:
                 yield ("C02 task-started-twice", {"task": t, "times": [e["time"] for e in evs]})
@@ -328,6 +341,8 @@ def oracle(prop, run):
                  ("SCHEDULED", "VIRTUAL"), ("SCHEDULED", "RELEASED"), ("VIRTUAL", "CANCELLED"), ("RELEASED", "CANCELLED"), ("SCHEDULED", "CANCELLED")}
         last = {}
         for e in mon:
+            if e["ev"] == "noop_call":
+                yield (f"C06 lifecycle-call-returned-without-changing-the-state via={e['via']} state={e['state']}", {"event": e})
             if e["ev"] != "transition":
                 continue
             if (e["pre"], e["post"]) not in LEGAL:
@@ -397,6 +412,32 @@ def oracle(prop, run):
         for t_, evs in starts.items():
             if tasks.get(t_, {}).get("state") == "CANCELLED":
                 yield ("C07 cancelled-task-was-started", {"task": t_})
+        # "the join and everything after it run once the taken branch completes": a cascading cancellation stops at a
+        # join unless ALL its parents are cancelled, so a join ends CANCELLED only when the policy asked for it (CANCEL
+        # decision, or an unplaced task dropped with drop_skipped_tasks), when all its parents are cancelled, or when
+        # its pending placement came up in a task graph that already had a cancelled sink
+        asked = {f"g{p_['g']}.t{p_['t']}" for d_ in case.get("decisions", []) for p_ in d_["placements"] if p_["kind"] == "cancel"}
+        if flags.get("drop_skipped_tasks"):
+            # an unplaced answer (a PLACE_TASK decision without a pool) is a cancellation request with this flag
+            asked |= {f"g{p_['g']}.t{p_['t']}" for d_ in case.get("decisions", []) for p_ in d_["placements"] if p_["kind"] == "place" and p_.get("pool") is None}
+        for lab, t in tasks.items():
+            if not (t["terminal"] and t["state"] == "CANCELLED" and t["parents"]) or lab in asked:
+                continue
+            if all(tasks[q]["state"] == "CANCELLED" for q in t["parents"]):
+                continue
+            below = set()
+            stack = [lab]
+            while stack:
+                x = stack.pop()
+                if x not in below:
+                    below.add(x)
+                    stack.extend(tasks[x]["children"])
+            other_sink_cancelled = any(
+                g["name"] == t["graph"] and any(sk not in below and tasks[sk]["state"] == "CANCELLED" for sk in g["sinks"]) for g in obs["graphs"]
+            )
+            if not other_sink_cancelled:
+                yield ("C07 join-cancelled-although-a-parent-was-not-cancelled-and-nobody-asked", {"join": lab, "parents": [(q, tasks[q]["state"]) for q in t["parents"]]})
+                break
     if prop == "C19" and obs["err"] in (None, "Watchdog"):
         # closed-loop release: never more than `concurrency` task graphs of the job in flight, never more than
         # `invocations` in total; a follow-up is released only after an earlier graph has finished or was cancelled
